@@ -398,6 +398,9 @@ class SpaceImpl:
     def unloc(self, x, y):
         """invert the per-space location transform of draw_*; exact integer units or '?'"""
         fam = self.fam
+        if fam in NETS and getattr(self, "raw_pos", False):
+            rx, ry = round(x), round(y)
+            return f"{rx},{ry}" if abs(x - rx) < 1e-9 and abs(y - ry) < 1e-9 else "?,?"
         if fam in NETS:
             hits = [lab for lab, p in self.net_layout().items() if abs(p[0] - x) < 1e-12 and abs(p[1] - y) < 1e-12]
             return f"{hits[0]},0" if len(hits) == 1 else "?,?"
@@ -467,6 +470,40 @@ class SpaceImpl:
             groups = self.read_axes(ax)
         self.trace.append(("draw", snap, groups, None, kw, self.heap_before, self.heap_now()))
         return "ok" + "".join(
+            f" | {mk} {z} n={len(mem)}" + "".join(" " + ",".join(t) for t in mem) for mk, z, mem in groups)
+
+    def draw_net(self, toks):
+        """draw_space on a network with the layout given by a callable (and keywords for it); edges are not drawn"""
+        m = L()
+        layout = {}
+        for t in toks:
+            n, x, y = t.split(":")
+            layout[int(n)] = (int(x), int(y))
+        calls = []
+
+        def layout_alg(graph, **kw):
+            calls.append((graph is self.graph, dict(kw)))
+            return dict(layout)
+
+        snap = self.snapshot()
+        saved = self.layout
+        self.layout, self.raw_pos = layout, True
+        ax = m["Figure"]().add_subplot()
+        try:
+            with warnings.catch_warnings():
+                warnings.simplefilter("ignore")
+                try:
+                    m["draw_space"](self.space, self.portrayal, ax=ax, layout_alg=layout_alg, layout_kwargs={"scale": 2}, draw_grid=False)
+                except Exception as e:
+                    tok = f"err Key {e.args[0]}" if isinstance(e, KeyError) and e.args else exc_tok(e)
+                    self.trace.append(("drawnet", snap, layout, None, tok, calls, self.heap_before, self.heap_now()))
+                    return tok
+                groups = self.read_axes(ax)
+                size = self.frac_tok(self.s_default(), 10000)
+        finally:
+            self.layout, self.raw_pos = saved, False
+        self.trace.append(("drawnet", snap, layout, groups, size, calls, self.heap_before, self.heap_now()))
+        return f"ok size={size}" + "".join(
             f" | {mk} {z} n={len(mem)}" + "".join(" " + ",".join(t) for t in mem) for mk, z, mem in groups)
 
     def sdefault(self):
@@ -776,6 +813,8 @@ class SpaceImpl:
             return self.draw(component=True)
         if k == "sdefault":
             return self.sdefault()
+        if k == "drawnet":
+            return self.draw_net(w[1:])
         if k == "drawk":
             return self.draw(kw=dict(t.split("=") for t in w[1:]))
         if k == "altair":
@@ -1407,8 +1446,26 @@ def gen_space(R, tier):
         crowded = [c for c in free if c in occ.values()] if fam not in EXCLUSIVE else []
         return R.choice(crowded) if crowded and R.random() < 0.35 else R.choice(free)
 
+    def gen_drawnet():
+        """a layout for the caller's layout algorithm: distinct positions for the nodes, sometimes one node missing, one
+        unknown node more, or (rarely) empty"""
+        if R.random() < 0.04:
+            return "drawnet"
+        labs = list(extra)
+        if labs and R.random() < 0.25:
+            labs.remove(R.choice(labs))
+        if R.random() < 0.15:
+            labs.append(R.choice([n for n in range(9, 13)]))
+        R.shuffle(labs)
+        spots = R.sample([(x, y) for x in range(-2, 5) for y in range(-1, 4)], len(labs))
+        if len(labs) > 1 and R.random() < 0.1:
+            spots = [(spots[0][0], spots[0][1] + i) for i in range(len(labs))]  # all on one vertical line
+        return " ".join(["drawnet", *[f"{n}:{x}:{y}" for n, (x, y) in zip(labs, spots)]])
+
     def observe():
         k = R.random()
+        if fam in NETS and k < 0.22:
+            return gen_drawnet()
         if k < 0.28:
             return "collect"
         if k < 0.36:
@@ -2029,6 +2086,33 @@ def oracle(sc, obs):
                 bad.append(f"altair-mark: marks are {facts['type']} filled={facts['filled']}")
             if any(t in ("x", "y", "color", "size") or not any(t in r for r in rows) for t in facts["tip"]):
                 bad.append(f"altair-tooltip: tooltip fields {facts['tip']} for rows {rows}")
+        elif kind == "drawnet":
+            _, snap, layout, groups, tok, calls, _hb, _ha = ev
+            layout = {int(k): tuple(v) for k, v in layout.items()}
+            # the caller's layout algorithm is called once, with the space's graph and the caller's keywords
+            if layout and calls != [(True, {"scale": 2})] and calls != [[True, {"scale": 2}]]:
+                bad.append(f"drawnet-layout-call: the layout algorithm was called as {calls}")
+            missing = [loc[0] for _, loc, _ in snap if loc[0] not in layout]
+            if groups is None:
+                if not layout or (missing and tok.startswith("err Key")):
+                    continue
+                bad.append(f"drawnet-raised: draw_network raised {tok} with every agent's node in the layout {layout}")
+                continue
+            if missing:
+                bad.append(f"drawnet-missing-node: agents on nodes {missing} the layout has no position for, drawn all the same")
+                continue
+            xs, ys = [v[0] for v in layout.values()], [v[1] for v in layout.values()]
+            ext = max(max(xs) - min(xs), max(ys) - min(ys)) or 1
+            from fractions import Fraction
+
+            if tok != str(Fraction(32400, ext * ext)):
+                bad.append(f"drawnet-default-size: default size {tok} for a layout of extent {ext}")
+            # one marker per agent, at the position the layout gives for the label of its node
+            want = sorted((f"{layout[loc[0]][0]},{layout[loc[0]][1]}",) + expected_marker(fam, loc, d, "D")[1:] + tuple(
+                to_tok(k, d[k]) if k in d else "-" for k in ("alpha", "edgecolors", "linewidths")) for _, loc, d in snap)
+            got = sorted((t[0], t[1], t[2], mk, z, t[3], t[4], t[5]) for mk, z, mem in groups for t in mem)
+            if got != want:
+                bad.append(f"drawnet-marker-at-layout-position: drawn {got} but the agents and the layout {layout} demand {want}")
         elif kind == "sdefault":
             _, n, tok = ev
             # the default size is a positive finite number whenever there is an agent to draw (V12)
@@ -2191,6 +2275,6 @@ def oracle(sc, obs):
             if any(udict.get(n, fdict.get(n)) is not params[n] for n in names):
                 bad.append("split-values: a value changed identity in the split")
         # the dicts the portrayal handed out are as the portrayal left them (V3)
-        if kind in ("collect", "draw", "altair") and ev[-2] != ev[-1]:
+        if kind in ("collect", "draw", "altair", "drawnet") and ev[-2] != ev[-1]:
             bad.append(f"portrayal-dict-mutated: {kind} changed the portrayal's dicts from {ev[-2]} to {ev[-1]}")
     return bad
